@@ -190,14 +190,13 @@ PROPS['C18'] = {
 PROPS['C21'] = {
     'units': ['reader', 'loader'],
     'functions': ['rule_reader.rs::strip_comments', 'rule_reader.rs::separate_rules', 'rule_reader.rs::check_last_char',
-                  'rule_reader.rs::is_decimal_point', 'rule_reader.rs::trim_error_line', 'rule_reader.rs::read_facts_and_rules'],
+                  'rule_reader.rs::is_decimal_point', 'rule_reader.rs::trim_error_line', 'rule_reader.rs::read_facts_and_rules', 'rule_reader.rs::unmatched_bracket'],
     'oracles': {'*': 'c21_load'},
     'not_covered': [
         'read_facts_and_rules is under proof (unit loader; rule R14 writes `for line in lines` as loop / next()): the text handed to separate_rules is the kept lines of the file in order, separated by white space, or the file is rejected; '
         'RELATIVE TO the assumed specification of io::Lines::next / line_reader (the lines of the named file, in order; T3) and to `stripped`, defined as what the pure function strip_comments returns',
         'load_kb_from_file (parse_rule on each returned string, add_rules!) is not under contract: that each segment parses to the rule its text denotes is string-level (C19/C20, n/a)',
         'parse_rule itself (string parsing; see C18 for its panic-freedom)',
-        'unmatched_bracket: assumed contract (its body crashes Verus 0.2026.09.13 on String + &String)',
         "str::trim is specified only as 'a contiguous sub-sequence' (T3)",
     ],
 }
